@@ -239,11 +239,14 @@ def evaluate(chk, v, suffixes):
                         continue
                     if len(s["loops"]) > 1:
                         chk.broken("%s: rounded-mask statement at line %s is in a loop nest" % (f.name, s["line"]))
+                    # (conditions under which the whole rotate-and-extract pipeline runs, e.g. after an early return, are not
+                    # coverage conditions)
+                    own = [g_ for g_ in s["guards"] if g_ not in br[0]["guards"]]
                     if s["loops"]:
-                        terms.append((s["loops"][0], pos, 1, s["guards"]))
+                        terms.append((s["loops"][0], pos, 1, own))
                     else:
                         u = sym.sym("u@%s" % s["line"])
-                        terms.append(({"var": u, "lo": pos, "cmp": "<", "hi": sym.add(pos, I(1)), "step": I(1), "l": s["line"]}, u, 1, s["guards"]))
+                        terms.append(({"var": u, "lo": pos, "cmp": "<", "hi": sym.add(pos, I(1)), "step": I(1), "l": s["line"]}, u, 1, own))
                 if not problems:
                     stc, detc = coverage.cover_1d(terms, n)
                     if stc == "unknown":
